@@ -43,7 +43,7 @@ def ret_values(f):
 
 
 def may_return_nonzero(f):
-    if not f.ret.startswith("i") or f.ret == "i1":
+    if f.ret not in ("i32", "i64", "i16"):
         return False
     for v in ret_values(f):
         if v.is_const:
@@ -63,10 +63,104 @@ class ErrModel:
 
     def call_is_err(self, c):
         """call whose int result can signal a fault-originated failure"""
-        if c.op != "call" or not (c.ty.startswith("i") and c.ty not in ("i1", "i8")):
+        if c.op != "call" or c.ty not in ("i32", "i64", "i16"):
             return False
         sc = slot_call(c)
         if sc is not None and sc[0] in FAULT_SLOTS_STRUCTS:
             return True
         ts, ok = self.prog.call_targets(c)
         return any((not isinstance(t, ExternFn)) and t in self.err for t in ts)
+
+
+def ret_sources(f):
+    """[(leaf value, block that selects it)] for everything the function may return (nested phis expanded)"""
+    out = []
+    for r in f.rets():
+        if not r.ops:
+            continue
+        seen = set()
+        stack = [(r.ops[0], r.bb)]
+        while stack:
+            v, b = stack.pop()
+            if (id(v), id(b)) in seen:
+                continue
+            seen.add((id(v), id(b)))
+            if v.is_inst and v.op == "phi":
+                for val, pred in zip(v.ops, v.x["inc"]):
+                    stack.append((val, pred))
+            else:
+                out.append((v, b))
+    return out
+
+
+def consistent_reach(f, start, value, fact, targets):
+    """blocks in `targets` reachable from block `start` when SSA `value` is known to satisfy fact
+    ('nonzero' | 'negative' | 'null'); branches that test the same SSA value are followed only on the consistent side"""
+    hit = set()
+    seen, stack = set(), [start]
+    while stack:
+        b = stack.pop()
+        if b in seen:
+            continue
+        seen.add(b)
+        if b in targets:
+            hit.add(b)
+        t = b.term
+        nxt = list(b.succs)
+        if t.op == "br" and len(t.x["succ"]) == 2:
+            c = t.ops[0]
+            if c.is_inst and c.op == "icmp" and strip_casts(c.ops[0]) is value and c.ops[1].is_const and \
+                    (c.ops[1].is_null or (c.ops[1].is_int and c.ops[1].sval == 0)):
+                p = c.pred
+                truth = None
+                if fact in ("nonzero", "negative"):
+                    if p == "eq":
+                        truth = False
+                    elif p == "ne":
+                        truth = True
+                if fact == "negative":
+                    if p in ("slt", "sle"):
+                        truth = True
+                    elif p in ("sgt", "sge"):
+                        truth = False
+                if fact == "null":
+                    if p == "eq":
+                        truth = True
+                    elif p == "ne":
+                        truth = False
+                if truth is True:
+                    nxt = [t.x["succ"][0]]
+                elif truth is False:
+                    nxt = [t.x["succ"][1]]
+        stack.extend(nxt)
+    return hit
+
+
+def failure_edges(f, call, pointer=False):
+    """[(successor block, fact)] edges on which the result of `call` is known to signal failure"""
+    out = []
+    for u in f.uses.get(call, []):
+        if u.op != "icmp":
+            continue
+        z = u.ops[1]
+        if not (z.is_const and (z.is_null or (z.is_int and z.sval == 0))) or strip_casts(u.ops[0]) is not call:
+            continue
+        for br in f.uses.get(u, []):
+            if br.op != "br" or len(br.x["succ"]) != 2:
+                continue
+            s0, s1 = br.x["succ"]
+            if pointer:
+                if u.pred == "eq":
+                    out.append((s0, "null"))
+                elif u.pred == "ne":
+                    out.append((s1, "null"))
+            else:
+                if u.pred == "ne":
+                    out.append((s0, "nonzero"))
+                elif u.pred == "eq":
+                    out.append((s1, "nonzero"))
+                elif u.pred == "slt":
+                    out.append((s0, "negative"))
+                elif u.pred == "sge":
+                    out.append((s1, "negative"))
+    return out
